@@ -129,11 +129,21 @@ def exec_havoc_for(I, st, env, it, spec):
     accs = loops.accumulator_names(body, lookup)
     if sorted(accs) != sorted(kinds):
         raise Unsupported("havoc annotation names %s but the loop's append-only accumulators are %s" % (sorted(kinds), sorted(accs)))
-    poisoned = [n for n in assigned if n not in target_names]
+    scalars = spec.get("havoc_scalars", {})  # carried scalars (running sums ...): arbitrary at every iteration start
+    poisoned = [n for n in assigned if n not in target_names and n not in scalars]
+    S0 = Sym(I, spec.get("spec_module", "spec.tiers"))
+    counts = {n: set() for n in kinds}
+
+    def fresh_scalar(name, kind, tag):
+        I.havoc_counter = getattr(I, "havoc_counter", 0) + 1
+        nm = "havoc%d.%s.%s" % (I.havoc_counter, name, tag)
+        return S0.real(nm) if kind == "real" else S0.int(nm)
 
     def run_body(cenv, value, recs):
         for r in recs.values():
             r.tolerate_abstract = True
+        for n, kind in scalars.items():
+            cenv.vars[n] = fresh_scalar(n, kind, "it")
         I.assign(st.target, value, cenv)
         try:
             I.exec_block(body, cenv)
@@ -141,9 +151,26 @@ def exec_havoc_for(I, st, env, it, spec):
             pass
     j, sterm, results, binds = loops.explore_body(I, src, run_body, accs, poisoned, env, want_updates=(),
                                                  check_escape=False)
+    raising = []
     for bp in results:
+        if bp.kind == "raise":
+            # allowed when the raising condition does not depend on anything the iteration itself introduced
+            # (`min()` of an empty reference list): the loop then raises iff some iteration does (R-FORALL)
+            marker = "~"
+            local = [nm for nm in loops.free_names([bp.guard]) if marker in nm and nm != j.decl().name()
+                     and nm not in set(c.decl().name() for c, _ in binds)]
+            if local:
+                raise Unsupported("havoc rule: an iteration may raise under a condition of its own (%s)" % local[0])
+            raising.append(bp)
+            continue
         if bp.kind != "normal":
             raise Unsupported("havoc rule: an iteration may %s" % bp.kind)
+        for n in kinds:
+            outs = bp.outs.get(n, [])
+            counts[n].add(None if any(isinstance(o, AList) for o in outs) else len(outs))
+    if raising:
+        quiet = [loops.BodyPath("normal", bp.guard, {}, None, {}) for bp in results if bp.kind == "normal"]
+        loops.apply_paths(I, src, sterm, j, raising + quiet, {}, env, set(), note="@L%d" % st.lineno, binds=binds)
     S = Sym(I, spec.get("spec_module", "spec.tiers"))
     I.havoc_counter = getattr(I, "havoc_counter", 0) + 1
     for n, kind in kinds.items():
@@ -152,9 +179,15 @@ def exec_havoc_for(I, st, env, it, spec):
         extra = S.list("havoc%d.%s" % (I.havoc_counter, n), kind)
         extra.owner = id(I.ctx)
         old = box.term
+        if len(counts[n]) == 1 and None not in counts[n]:
+            # every iteration appends the same number of elements: the length of what was collected is known
+            (m,) = counts[n]
+            I.ctx.assume(extra.term.length() == m * src.length(I))
         box.term = extra.term if (isinstance(old, Conc) and not old.items) else core.mk_concat(I, [old, extra.term], extra.term.etype)
     for n in assigned:
-        if n not in kinds:
+        if n in scalars:
+            env.vars[n] = fresh_scalar(n, scalars[n], "exit")
+        elif n not in kinds:
             env.vars[n] = Poison("assigned in a loop summarised by havoc")
 
 
